@@ -179,3 +179,99 @@ def check_escape_table(chk, esc):
             chk.violation("G-FLOW.a", key, "%s:%s" % (rel(fn["file"]), fn["line"]),
                           "%s leaves character %d (%r) as it is: %s - schema free text containing it yields a header that "
                           "does not compile (or means something else)" % (fn["qn"], c, chr(c), why))
+
+
+
+NUMERIC_EMITTERS = ("to_integer_literal", "numeric_literal_to_value")
+NUMERIC_TEXT = {"constant_value", "min_value", "max_value", "null_value", "value"}
+NUMERIC_WRAPPERS = ("to_integer_literal", "numeric_literal_to_value", "escape_literal", "make_char_constant", "make_string_constant",
+                    "value_ref_to_enum_value", "get_min_value", "get_max_value", "get_null_value", "get_const_value", "get_const_impl")
+NUMERIC_NORMALISERS = ("strip_leading_zeros", "to_integer_literal", "numeric_literal_to_value", "string_to_number")
+
+
+def check_numeric_text(chk):
+    """G-FLOW.d: numeric schema text becomes a C++ literal only through the emitters of utils.hpp, and an emitter never
+    hands its text parameter back as it is: XML decimals may carry leading zeros, which C++ reads as octal (`010` is
+    8, `09` does not compile).  Every use of the text parameter inside a returned expression must be an argument of a
+    normaliser / parser or an operand of a comparison."""
+    f = gen.facts()
+    found = 0
+    for fn in gen.sbeppc_functions(f):
+        if fn["name"] not in NUMERIC_EMITTERS or not fn["file"].endswith("utils.hpp"):
+            continue
+        found += 1
+        p0 = (fn.get("params") or [{}])[0].get("did")
+        par = gen.parents(fn)
+        # locals initialised from the parameter without normalisation are aliases of it
+        raw = {p0}
+        changed = True
+        while changed:
+            changed = False
+            for x in walk(fn["body"]):
+                if x.get("k") == "VarDecl" and x.get("did") not in raw and x.get("init") is not None:
+                    if _raw_use(x["init"], raw, gen.parents({"body": x["init"]})):
+                        raw.add(x["did"])
+                        changed = True
+        bad = []
+        for n in walk(fn["body"]):
+            if n.get("k") != "ReturnStmt" or n.get("sub") is None:
+                continue
+            if _raw_use(n["sub"], raw, par):
+                bad.append(n.get("l"))
+        key = "numeric-text:" + fn["name"]
+        if bad:
+            chk.violation("G-FLOW.d", key, "%s:%s" % (rel(fn["file"]), bad[0]),
+                          "%s returns its text parameter unnormalised (line %s): a schema value with leading zeros (`010`) is "
+                          "emitted as an octal C++ literal (8), `09` does not compile" % (fn["qn"], bad))
+        else:
+            chk.ok("G-FLOW.d", key, {"function": fn["qn"]}, nontrivial=True)
+    if found < 2:
+        chk.broke("G-FLOW.d: numeric emitters %s not found in utils.hpp" % (NUMERIC_EMITTERS,))
+    # who may paste numeric schema text: only through an emitter / escaper
+    n = 0
+    for fc in gen.format_calls(f):
+        if fc.kind != "format":
+            continue
+        for nm, arg in list(fc.named.items()) + [(str(i), a) for i, a in enumerate(fc.positional)]:
+            reads = set(x.get("name") for x in walk(arg) if x.get("k") == "MemberExpr" and x.get("dk") == "Field"
+                        and x.get("name") in NUMERIC_TEXT and "string" in (x.get("t") or ""))
+            if not reads:
+                continue
+            n += 1
+            wrapped = any((x.get("callee") or {}).get("name") in NUMERIC_WRAPPERS for x in walk(arg))
+            key = "numeric-paste:%s:{%s}" % (gen.short(fc.fn), nm)
+            if wrapped:
+                chk.ok("G-FLOW.d", key + "#%s" % fc.line, {"where": fc.where, "sources": sorted(reads)})
+            else:
+                chk.violation("G-FLOW.d", key, fc.where,
+                              "template in %s pastes schema value text (%s) through {%s} without going through "
+                              "numeric_literal_to_value / to_integer_literal / an escaper" % (gen.short(fc.fn), ", ".join(sorted(reads)), nm))
+    chk.extra["numeric_paste_sites"] = n
+
+
+def _raw_use(expr, raw, par):
+    """does expr use one of the raw variables outside a normaliser argument / comparison?"""
+    for x in walk(expr):
+        if x.get("k") != "DeclRefExpr" or x.get("did") not in raw:
+            continue
+        cur, ok_ = x, False
+        while id(cur) in par:
+            cur = par[id(cur)][0]
+            c = (cur.get("callee") or {}).get("name")
+            if c in NUMERIC_NORMALISERS:
+                ok_ = True
+                break
+            if cur.get("k") in ("BinaryOperator", "CXXOperatorCallExpr") and cur.get("op") in ("==", "!=", "<", ">", "<=", ">="):
+                ok_ = True
+                break
+            if cur.get("k") == "ArraySubscriptExpr" or (cur.get("k") == "CXXOperatorCallExpr" and cur.get("op") == "[]"):
+                ok_ = True      # a single character
+                break
+            if c in ("empty", "size"):
+                ok_ = True
+                break
+            if cur is expr:
+                break
+        if not ok_:
+            return True
+    return False
